@@ -150,6 +150,12 @@ var slotBuilders = []slotBuilder{
 	{"graphLookup", "aggregate", aggWith(func(g *Gen, l func() *Node) []*Node {
 		return []*Node{ObjN("$graphLookup", ObjN("from", g.nsColl(), "startWith", ObjN("$ifNull", ArrN(g.Ref(), l())), "connectFromField", FreeS("a"), "connectToField", FreeS("b"), "as", FreeS("c"), "restrictSearchWithMatch", ObjN("r", l())))}
 	})},
+	{"graphLookup-startWith-literal", "aggregate", aggWith(func(g *Gen, l func() *Node) []*Node {
+		return []*Node{ObjN("$graphLookup", ObjN("from", g.nsColl(), "startWith", l(), "connectFromField", FreeS("a"), "connectToField", FreeS("b"), "as", FreeS("c")))}
+	})},
+	{"graphLookup-startWith-array", "aggregate", aggWith(func(g *Gen, l func() *Node) []*Node {
+		return []*Node{ObjN("$facet", ObjN("g", ArrN(ObjN("$graphLookup", ObjN("from", g.nsColl(), "startWith", ArrN(l(), l()), "connectFromField", FreeS("a"), "connectToField", FreeS("b"), "as", FreeS("c"))))))}
+	})},
 	{"geoNear-query", "aggregate", aggWith(func(g *Gen, l func() *Node) []*Node {
 		return []*Node{ObjN("$geoNear", ObjN("near", ObjN("type", FreeS("Point"), "coordinates", g.coord()), "distanceField", FreeS("d"), "query", ObjN("q", l())))}
 	})},
